@@ -6,7 +6,10 @@ use std::time::{Duration, SystemTime, UNIX_EPOCH};
 use crossbeam_channel::tick;
 use hashbrown::HashMap;
 use log::{debug, info};
+#[cfg(not(cached_verif))]
 use parking_lot::RwLock;
+#[cfg(cached_verif)]
+use crate::cache::verif::RwLock;
 
 use crate::cache::clock::ClockType;
 use crate::cache::expiration::config::TTLConfig;
@@ -134,6 +137,10 @@ impl TTLTicker {
         self.shards.iter().map(|shard| shard.try_read().map(|entries| {
             entries.iter().map(|(key_id, expiry)| (*key_id, crate::cache::verif::secs(expiry), crate::cache::verif::nanos(expiry))).collect()
         })).collect()
+    }
+
+    pub(crate) fn verif_lock_ids(&self) -> Vec<(i64, String)> {
+        self.shards.iter().enumerate().map(|(index, shard)| (shard as *const _ as i64, format!("ttl{}", index))).collect()
     }
 
     pub(crate) fn verif_keep_running(&self) -> bool { self.keep_running.load(Ordering::Acquire) }
